@@ -7,12 +7,12 @@ Lemma node_ids_tids : forall g, node_ids g = tids (txs g).
 Proof. intros. unfold node_ids, tids, txs. rewrite map_map. reflexivity. Qed.
 
 (* C16: what pool_invb = true says about conflicts and accounting *)
-Lemma pool_invb_c16 : forall p, pool_invb p = true ->
+Lemma pool_invb_c16 : forall ex p, pool_invb_gen ex p = true ->
   NoDup (tids (txs (p_g p))) /\ NoConflict (txs (p_g p)) /\
   p_gas p = sumN (map t_gas (txs (p_g p))) /\ p_bytes p = sumN (map t_size (txs (p_g p))) /\
   p_stats p = (lenN (p_txmap p), p_bytes p, p_gas p).
 Proof.
-  intros p H. unfold pool_invb in H.
+  intros ex p H. unfold pool_invb_gen in H.
   repeat match goal with Hx : _ && _ = true |- _ => apply andb_true_iff in Hx; destruct Hx end.
   match goal with Hi : inv_ids p = true |- _ => unfold inv_ids in Hi;
     repeat (apply andb_true_iff in Hi; destruct Hi as [Hi ?]); apply nodupN_NoDup in Hi;
